@@ -9,9 +9,23 @@ args = sys.argv[1:]
 if "--tier" in args:
     tier = args[args.index("--tier") + 1]
     del args[args.index("--tier"):args.index("--tier") + 2]
+# --tree: apply each change to a scratch worktree of /repo's HEAD (outside /repo and /verif) and point the check at it with
+# VERIF_REPO / PYTHONPATH; evidence and replays of those runs go to a scratch directory (VERIF_OUT), so /verif/evidence keeps
+# what the unchanged tree produced and a background run that reads /repo is not disturbed.
+use_tree = "--tree" in args
+if use_tree:
+    args.remove("--tree")
 root = "/verif/seeded"
 names = args or sorted(n for n in os.listdir(root) if os.path.isfile(os.path.join(root, n, "patch.diff")))
-st = subprocess.run(["git", "-C", "/repo", "status", "--porcelain"], capture_output=True, text=True).stdout.strip()
+TREE = "/repo"
+env = dict(os.environ)
+if use_tree:
+    import tempfile
+    base = tempfile.mkdtemp(prefix="verif-seedtree-")
+    TREE = os.path.join(base, "tree")
+    subprocess.run(["git", "-C", "/repo", "worktree", "add", "-q", "--detach", TREE, "HEAD"], check=True)
+    env.update({"VERIF_REPO": TREE, "PYTHONPATH": TREE, "VERIF_OUT": os.path.join(base, "out")})
+st = subprocess.run(["git", "-C", TREE, "status", "--porcelain"], capture_output=True, text=True).stdout.strip()
 if st:
     print("refusing: /repo is not clean:\n" + st)
     sys.exit(2)
@@ -20,14 +34,14 @@ results = json.load(open(out_path)) if os.path.exists(out_path) else {}
 for name in names:
     pid = name[:3]
     patch = os.path.join(root, name, "patch.diff")
-    if subprocess.run(["git", "-C", "/repo", "apply", patch]).returncode != 0:
+    if subprocess.run(["git", "-C", TREE, "apply", patch]).returncode != 0:
         results[name] = {"property": pid, "error": "patch does not apply"}
         continue
     t0 = time.time()
     try:
-        p = subprocess.run(["./check", pid, "--tier", tier], cwd="/verif", capture_output=True, text=True)
+        p = subprocess.run(["./check", pid, "--tier", tier], cwd="/verif", capture_output=True, text=True, env=env)
     finally:
-        subprocess.run(["git", "-C", "/repo", "checkout", "--", "."])
+        subprocess.run(["git", "-C", TREE, "checkout", "--", "."])
     lines = p.stdout.splitlines()
     viol = [l for l in lines if l.startswith("VIOLATION")]
     what = [l.strip()[6:] for l in lines if l.startswith("  what:")]
@@ -38,7 +52,12 @@ for name in names:
                                                       (what[0][:140] if what else "")))
     with open(out_path, "w") as f:
         json.dump(results, f, indent=1, sort_keys=True)
-clean = subprocess.run(["git", "-C", "/repo", "status", "--porcelain"], capture_output=True, text=True).stdout.strip()
+clean = subprocess.run(["git", "-C", TREE, "status", "--porcelain"], capture_output=True, text=True).stdout.strip()
 print("repo:", clean or "clean")
+if use_tree:
+    import shutil
+    subprocess.run(["git", "-C", "/repo", "worktree", "remove", "--force", TREE])
+    shutil.rmtree(base, ignore_errors=True)
+    sys.exit(0)
 # evidence files were rewritten by runs against a changed tree: they must be regenerated from the unchanged tree before committing
 print("NOTE: re-run ./check for {} on the unchanged tree to regenerate evidence/".format(" ".join(sorted({n.split('_')[0] for n in names}))))
